@@ -474,7 +474,7 @@ func writerCompTable(P *Program, iface types.Type) (*compTable, *ssa.Function) {
 					continue
 				}
 				names := src.names
-				if len(src.via) == 0 {
+				if len(src.via) == 0 && len(names) == 0 {
 					names, _ = stringEqAt(b)
 				}
 				if len(names) == 0 {
@@ -604,13 +604,42 @@ func ruleCTAgree(c *Ctx, s *readFileShape) {
 			if lkFn == s.fn {
 				bad = reach[s.decompress.Block()]
 			} else {
-				// the selection lives in a helper: none of its possibly-successful returns may be reached
-				def, poss := successReturns(lkFn)
-				for _, r := range append(def, poss...) {
-					if reach[r.Block()] && !stop[r.Block()] {
-						bad = true
+				// the selection lives in a helper: none of its possibly-successful returns may be reached, unless it
+				// hands back what a further selection helper returned, which is then held to the same from its entry
+				var unguarded func(g *ssa.Function, reach map[*ssa.BasicBlock]bool, depth int) bool
+				unguarded = func(g *ssa.Function, reach map[*ssa.BasicBlock]bool, depth int) bool {
+					def, poss := successReturns(g)
+					for _, r := range append(def, poss...) {
+						if !reach[r.Block()] || stop[r.Block()] {
+							continue
+						}
+						var inner *ssa.Function
+						for _, rv := range resolvedResults(r) {
+							if !types.Identical(rv.Type(), s.compIface) {
+								continue
+							}
+							var call *ssa.Call
+							if ex, ok := rv.(*ssa.Extract); ok {
+								call, _ = ex.Tuple.(*ssa.Call)
+							} else if cl, ok := rv.(*ssa.Call); ok {
+								call = cl
+							}
+							if call != nil {
+								if h := call.Call.StaticCallee(); h != nil && rt.fns[h] && h != g && h.Blocks != nil {
+									inner = h
+								}
+							}
+						}
+						if inner == nil || depth >= 2 {
+							return true
+						}
+						if unguarded(inner, reachableFrom(inner.Blocks[0], stop), depth+1) {
+							return true
+						}
 					}
+					return false
 				}
+				bad = unguarded(lkFn, reach, 0)
 			}
 			c.Check(!bad, fnKey(s.fn)+"/unknown-codec", P.pos(lk.Pos()),
 				"with a codec entry present, blocks are decoded only after one of the recognised names matched (every other path returns an error)",
@@ -656,7 +685,24 @@ func compressorRoles(P *Program, iface *types.Named) map[string]string {
 			continue
 		}
 		role := ""
-		for _, cs := range callsIn(fn) {
+		// the calls of decompress and of the module helpers it calls (two levels)
+		var calls []*CallSite
+		seenFn := map[*ssa.Function]bool{}
+		var gather func(f *ssa.Function, d int)
+		gather = func(f *ssa.Function, d int) {
+			if seenFn[f] || d > 2 {
+				return
+			}
+			seenFn[f] = true
+			for _, cs := range callsIn(f) {
+				calls = append(calls, cs)
+				if cs.Static != nil && P.isModuleFunc(cs.Static) && cs.Static.Blocks != nil {
+					gather(cs.Static, d+1)
+				}
+			}
+		}
+		gather(fn, 0)
+		for _, cs := range calls {
 			if cs.Static == nil {
 				continue
 			}
@@ -1427,6 +1473,9 @@ func ruleCPFresh(c *Ctx, s *readFileShape) {
 						writers = append(writers, cs.Instr)
 					case q == "(*compress/flate.Writer).Write" || q == "(*compress/flate.Writer).Close" || q == "(*compress/flate.Writer).Flush":
 						writers = append(writers, cs.Instr)
+					case P.isModuleFunc(cs.Static) && cs.Value() != nil && len(m.Params) > 0 && len(cs.Common.Args) > 0 && cs.Common.Args[0] == ssa.Value(m.Params[0]) && emptiesBufferOnEveryPath(cs.Static, bufPath, m.Params[0].Name()):
+						// a helper on the same receiver that empties the buffer whatever path it takes
+						resets = append(resets, cs.Value())
 					}
 				}
 				ok2 := false
@@ -1446,4 +1495,52 @@ func ruleCPFresh(c *Ctx, s *readFileShape) {
 			}
 		}
 	}
+}
+
+// emptiesBufferOnEveryPath: h, a method on the same receiver, calls
+// (*bytes.Buffer).Reset on the buffer at bufPath (spelled with the caller's
+// receiver name) in a block that dominates all its returns, and nothing in h
+// writes into that buffer before.
+func emptiesBufferOnEveryPath(h *ssa.Function, bufPath, callerRecv string) bool {
+	if h.Blocks == nil || len(h.Params) == 0 {
+		return false
+	}
+	tr := func(p string) string {
+		name := h.Params[0].Name()
+		if strings.HasPrefix(p, name+"->") {
+			return callerRecv + p[len(name):]
+		}
+		return p
+	}
+	var reset *ssa.Call
+	var writers []ssa.Instruction
+	for _, cs := range callsIn(h) {
+		if cs.Static == nil || len(cs.Common.Args) == 0 {
+			continue
+		}
+		q := qualName(cs.Static)
+		if !strings.HasPrefix(q, "(*bytes.Buffer).") || tr(accessPath(cs.Common.Args[0])) != bufPath {
+			continue
+		}
+		switch {
+		case q == "(*bytes.Buffer).Reset" && cs.Value() != nil:
+			reset = cs.Value()
+		case strings.Contains(q, "Read") || strings.Contains(q, "Write"):
+			writers = append(writers, cs.Instr)
+		}
+	}
+	if reset == nil {
+		return false
+	}
+	for _, r := range returnsOf(h) {
+		if !dominatesInstr(reset, r) {
+			return false
+		}
+	}
+	for _, w := range writers {
+		if !dominatesInstr(reset, w) {
+			return false
+		}
+	}
+	return true
 }
